@@ -313,8 +313,9 @@ METAS_FULL = tuple(itertools.product(((), (('l', 'v'),), (('l', 'a'),), (('l', '
                   'update/field old x new over the same 6} x when in {unset, spec.y==1, never}; causes: reason create/update/delete/resume x '
                   'initial x old/new state of spec.x in {absent,None,"a","b"}^2 x spec.y in {unset,1} x 2 metadata shapes.  '
                   'B (metadata): 12 kinds x 7 label criteria x 7 annotation criteria (value,PRESENT,ABSENT,2 callbacks,"") + field/when '
-                  'combinations + a foreign selector; causes: 5 label x 4 annotation shapes x 4 field states (x reasons).  All handlers of a '
-                  'family registered together with the public decorators; exhaustive (~6*10^5 handler-cause pairs)')
+                  'combinations + a foreign selector; causes: 5 label x 4 annotation shapes x 2 field states (x reasons).  C: seeded random '
+                  'declarations combining all criteria x random causes (500x400 quick, 1500x1500 thorough, changing; a third of that for the others).  All handlers of a '
+                  'family registered together with the public decorators; A and B exhaustive (~3*10^5 handler-cause pairs)')
 def R4(b):
     """
     For every cause c and every registered declaration h:  h in registry.get_handlers(c)  <=>  spec_match(h, c), where
@@ -389,6 +390,39 @@ def R4(b):
     for family, kinds in (('watching', ('event',)), ('indexing', ('index',)), ('spawning', ('daemon', 'timer')), ('webhooks', ('validate', 'mutate'))):
         run_universe('B', {family: list(meta_decls(kinds))}, other_facts(family, (('absent',), ('present', 'a')), (UNSET, 1), METAS_FULL))
 
+    # ---- universe C: seeded random declarations combining ALL criteria, against random causes
+    n_decls, n_facts = (1500, 1500) if b.thorough else (500, 400)
+    b.sampled(f'universe C: {n_decls} random declarations x {n_facts} random causes per family (seed {b.seed})')
+    vals, rng = value_alphabet() + ('b',), b.rng
+
+    def random_decl(kinds):
+        kind = rng.choice(kinds)
+        kw = dict(labels=rng.choice(meta_alphabet('l')), annotations=rng.choice(meta_alphabet('n')),
+                  when=rng.choice((UNSET, UNSET, when_y, when_never)))
+        if kind == 'field' or rng.random() < 0.7:
+            kw['field'] = FIELD
+            if kind in UPDATE_LIKE and rng.random() < 0.6:
+                kw['old'], kw['new'] = rng.choice(vals), rng.choice(vals)
+            else:
+                kw['value'] = rng.choice(vals)
+        return Decl(kind, **kw)
+
+    def random_facts(family):
+        labels, annotations = rng.choice(METAS_FULL)
+        kw = dict(family=family, labels=labels, annotations=annotations, y=rng.choice((UNSET, 1, 2)), new_x=rng.choice(STATES))
+        if family == 'changing':
+            reason = rng.choice(('create', 'update', 'delete', 'resume'))
+            old_x = kw['new_x'] if reason == 'resume' else ('absent',) if reason == 'create' else rng.choice(STATES)
+            return Facts(reason=reason, initial=reason == 'resume' or rng.random() < 0.4, deleted=reason == 'delete', old_x=old_x, **kw)
+        if family == 'webhooks':
+            return Facts(reason=rng.choice((None, 'validating', 'mutating')), **kw)
+        return Facts(**kw)
+    for family, kinds in (('changing', CHANGING_KINDS), ('watching', ('event',)), ('indexing', ('index',)),
+                          ('spawning', ('daemon', 'timer')), ('webhooks', ('validate', 'mutate'))):
+        scale = 1 if family == 'changing' else 3
+        run_universe('C', {family: [random_decl(kinds) for _ in range(n_decls // scale)]},
+                     [random_facts(family) for _ in range(n_facts // scale)])
+
     # ---- what do per-value callbacks receive for an absent value?
     def probe(value, **_):
         seen_by_callbacks.append(value)
@@ -419,3 +453,86 @@ def _show(x):
         if v != fld.default:
             d[fld.name] = repr(v) if not callable(v) else v.__name__
     return d
+
+
+# =========================================================================== R3
+class _AbstractSeen:
+    """`seen_ids` at an arbitrary loop head: an arbitrary set -- membership of the one key in play is a free boolean."""
+    def __init__(self, member):
+        self.member, self.queries, self.added = member, [], []
+
+    def __contains__(self, key):
+        self.queries.append(key)
+        return bool(self.member)          # forks the path
+
+    def add(self, key):
+        self.added.append(key)
+
+
+@harness('R3', targets='kopf._core.intents.registries._deduplicated', props=['C15'],
+         clauses=['starts_empty', 'yield_iff_unseen', 'remembers_exactly_this_key', 'bounded_reference', 'frame'],
+         canaries=['canary.yields_everything', 'canary.bounded_keeps_all'],
+         assumes=['id(handler.fn) identifies the function object for the duration of the call (CPython: the handlers hold references)'])
+def R3(vc):
+    """
+    _deduplicated(src) yields the input minus later elements with an equal (id(fn), id) pair, order kept:
+    "one function registered twice under the same id is invoked once" (C15).
+    Branch 0 -- loop contract, any length: `seen_ids` is empty when the loop is first reached (starts_empty); in one arbitrary
+      iteration from an arbitrary set `seen_ids`, the element h is yielded iff (id(h.fn), h.id) is not in seen_ids, at most once,
+      and nothing else is yielded (yield_iff_unseen); afterwards seen_ids = seen_ids U {that key}: the only key ever added, only
+      this membership is queried (remembers_exactly_this_key; that the key is an injective image of (fn, id) is pinned by branch 1);
+      the source is iterated as given (frame).  By induction seen_ids at
+      the head is exactly the key set of the elements consumed so far, hence the output is the list of first occurrences in order.
+    Branch 1 -- the same statement checked directly against a reference for EVERY list of length 0..4 over 2 functions x 2 ids
+      (all 341 lists; stated bound), through the public ActivityRegistry/ResourceRegistry-independent function itself.
+    """
+    from pyvc.loader import _STOP
+    from kopf._core.intents import registries
+    if vc.nondet(2, 'loop contract | lists up to 4') == 0:
+        h = Opaque('handler', fn=Opaque('fn'), id='some-id')
+        src = Opaque('src')
+        member = vc.bool('key(h) in seen_ids@head')
+        seen = _AbstractSeen(member)
+        yielded = []
+
+        def at_entry(loc):
+            s = loc.get('seen_ids')
+            vc.ensure('starts_empty', isinstance(s, (set, frozenset)) and len(s) == 0)
+
+        def havoc(loc):
+            return {'seen_ids': seen}
+
+        def element(loc, iterable):
+            vc.ensure('frame', iterable is src)
+            return _STOP if vc.nondet(2, 'exhausted?') == 0 else h
+
+        def at_backedge(loc):
+            vc.ensure('yield_iff_unseen', Iff(len(yielded) == 1, Not(member)))
+            vc.ensure('yield_iff_unseen', len(yielded) <= 1 and all(y is h for y in yielded))
+            # which key is formed from (fn, id) is pinned by branch 1; here: ONE key per element, tested and remembered
+            vc.ensure('remembers_exactly_this_key', len(seen.queries) >= 1 and all(q == seen.queries[0] for q in seen.queries))
+            key = seen.queries[0] if seen.queries else None
+            vc.ensure('remembers_exactly_this_key', Implies(Not(member), seen.added == [key]))
+            vc.ensure('remembers_exactly_this_key', Implies(member, seen.added in ([], [key])))
+            vc.ensure('remembers_exactly_this_key', loc.get('seen_ids') is seen)
+            vc.canary('canary.yields_everything', len(yielded) == 1)
+        ld = vc.load('kopf._core.intents.registries', '_deduplicated',
+                     loops={1: LoopSpec('for handler in src', havoc=havoc, element=element, at_entry=at_entry,
+                                        at_backedge=at_backedge, rebinds=('seen_ids',))})
+        for y in ld.fn(src):
+            yielded.append(y)
+        vc.ensure('yield_iff_unseen', len(yielded) == 0)        # only reached when the source is exhausted at the havocked head
+        return ('exhausted', len(yielded))
+    # ---- branch 1: all lists up to length 4
+    fns = [Opaque('fn-A'), Opaque('fn-B')]
+    pool = [Opaque(f'h[{i}{j}]', fn=f, id=hid) for i, f in enumerate(fns) for j, hid in enumerate(('id-1', 'id-2'))]
+    n = vc.nondet(5, 'length')
+    picks = [vc.nondet(len(pool), f'element {i}') for i in range(n)]
+    # distinct handler OBJECTS may share (fn, id): two registrations of one function under one id
+    src = [Opaque(f'reg{i}', fn=pool[p].fn, id=pool[p].id) for i, p in enumerate(picks)]
+    ld = vc.load('kopf._core.intents.registries', '_deduplicated')
+    out = list(ld.fn(list(src)))
+    ref = [h for i, h in enumerate(src) if not any(g.fn is h.fn and g.id == h.id for g in src[:i])]
+    vc.ensure('bounded_reference', len(out) == len(ref) and all(a is b_ for a, b_ in zip(out, ref)))
+    vc.canary('canary.bounded_keeps_all', len(out) == len(src))
+    return ('list', n, tuple(picks), len(out))
